@@ -192,6 +192,38 @@ def g3(rep, tms, F):
                 rep.add(Finding("G3", tm.pfn, inst + ":unclassified",
                                 "result of parse step %s(\"%s\") flows to `%s`, which is not a recognised "
                                 "propagation idiom" % (s.node.get("m"), s.tag, c), tm.file, s.ln))
+    # letter dispatch: a discarding fallback arm must not be the path of a letter the enum has
+    from .options import letter_map
+    for tm in tms:
+        if tm.g is None:
+            continue
+        for s_ in tm.g.sites:
+            if s_.consumer not in DISCARD or not s_.variant:
+                continue
+            for cnd in s_.conds:
+                if cnd[0] != "arm":
+                    continue
+                node = getattr(s_, "nodes", {}).get(cnd[1])
+                if node is None or node.get("k") != "match":
+                    continue
+                arms = node.get("arms") or []
+                if cnd[2] >= len(arms) or arms[cnd[2]]["pat"].get("k") not in ("_", "bind"):
+                    continue
+                covered = set()
+                for j, a in enumerate(arms):
+                    lits = _pat_lits(a["pat"])
+                    if not lits:
+                        continue
+                    if any(("arm", cnd[1], j) in o.conds and o.ty == s_.ty and o.consumer in PROPAGATE for o in tm.g.sites):
+                        covered |= lits
+                base, lm = letter_map(tm.ft, s_.ty)
+                r["instances"] += 1
+                for letter in sorted(set(lm) - covered - {""}):
+                    rep.add(Finding("G3", tm.pfn, "dispatch:%s:%s" % (G.short(s_.ty), letter),
+                                    "option %s%s of %s is not handled by its own dispatch arm and falls into the "
+                                    "fallback arm, whose parse result is consumed by `%s`: a malformed :%s%s: is consumed "
+                                    "and dropped instead of being reported" % (s_.tag, letter, G.short(s_.ty), s_.consumer,
+                                                                               s_.tag, letter), tm.file, s_.ln))
     # MessageParser itself + utils: T::parse results must be propagated
     n = 0
     for b in F.bodies:
@@ -209,6 +241,18 @@ def g3(rep, tms, F):
                                 % (b["path"], site["what"], site["consumer"]), b["file"], site["ln"]))
     r["parser_internal_sites"] = n
     return r
+
+
+def _pat_lits(p):
+    k = p.get("k")
+    if k == "plit" and isinstance(p.get("v"), str):
+        return {p["v"]}
+    if k == "por":
+        out = set()
+        for q in p["pats"]:
+            out |= _pat_lits(q)
+        return out
+    return set()
 
 
 def _result_sites(b, suffixes):
